@@ -16,7 +16,7 @@ from mc import statex
 from mc import c14_seq as seq
 from mc import c14_ilv as cilv
 
-BUDGET = {'quick': 80, 'thorough': 600}
+BUDGET = {'quick': 240, 'thorough': 600}
 
 # Ownership decisions never iterate a Python set/dict of strings: the managers
 # walk os.listdir() results and compare link targets.  The only set iteration
